@@ -106,7 +106,12 @@ fn main() {
             let s = db.session();
             let r = if args[2] == "gql" { s.execute(&text) } else { s.execute_cypher(&text) };
             match r {
-                Ok(r) => println!("OK {:?} {:?}", r.columns, r.rows),
+                Ok(r) => {
+                    println!("OK {:?} {:?}", r.columns, r.rows);
+                    if std::env::var("VH_AFTER").is_ok() {
+                        println!("AFTER nodes={} edges={}", db.node_count(), db.edge_count());
+                    }
+                }
                 Err(e) => println!("ERR {}", e.to_string().lines().next().unwrap_or("")),
             }
         }
